@@ -126,3 +126,8 @@ def wrap(a):
 
 def cat(*arrs, axis=0):
     return wrap(np.concatenate(arrs, axis=axis))
+
+
+def member_auto(tag, auto):
+    """in an autocorrelation measurement DD and RR are autocorrelation containers, DR / RD pair two different catalogs"""
+    return bool(auto) and tag.split("_")[-1] in ("dd", "rr")
